@@ -237,7 +237,13 @@ def d4_tracker_validity(ctx):
             s = ins.blocks[a.bb]["stmts"][a.si]
             v = fa.val_rvalue(s["rv"], (a.bb, a.si))
             detail = show(v, ins.names)
-            tgt = fa.val_place({"l": s["p"]["l"], "proj": s["p"]["proj"][:-1]}, (a.bb, a.si))
+            # the target is the slot itself, written through a held `&mut entries[i]` or as `entries[i] = ..`
+            pr = s["p"]["proj"]
+            tgt = fa.val_place({"l": s["p"]["l"], "proj": pr[:-1]}, (a.bb, a.si))
+            if pr and pr[-1]["k"] == "index":
+                tgt = ("index", fa.val_place({"l": s["p"]["l"], "proj": pr[:-1]}, (a.bb, a.si)), fa.val_local(pr[-1]["l"], (a.bb, a.si)))
+                if not any(is_field(x, "entries") for x in walk(tgt[1])):
+                    tgt = ("unknown",)
             ok = v[0] == "agg" and v[4] == ("conn_id", "timestamp_ms", "seq") and v[3] == (("param", 3), ("param", 4), ("param", 2)) \
                 and tgt[0] == "index" and _is_slot(tgt[2]) and pa.pc_at(a.bb, a.si) == pa.bdd.TRUE
         ctx.chk.ob("D4", "insert overwrites slot seq & mask with (conn_id, time, seq), unconditionally", ok, detail[:300], key="D4:insert")
